@@ -144,6 +144,17 @@ def shared_function_programs():
     p1 = IR.normalize_node(dict(name="P", kind="func", inputs=["x"], outputs=["p", "ready"], ndata=1, cache=True, emit_renamed=True))
     w1 = IR.normalize_node(dict(name="W", kind="func", inputs=["y"], outputs=["w"], wait_for=["ready"]))
     out.append((IR.prog("top", [p1, w1]), [["x", "in.x"], ["y", "in.y"]], "renamed-signal-of-cached-node"))
+    # a cached GATE that also emits a signal: on a cache hit its decision is restored AND its signal is produced
+    for kind in ("route", "ifelse"):
+        if kind == "route":
+            G = IR.route("G", ["x"], ["A", "END"], [["A"]], cache=True, pure=True)
+        else:
+            G = IR.ifelse("G", ["x"], "A", "END", [["A"]], cache=True, pure=True)
+        G["outputs"] = ["gs", "gs2"]
+        A1 = IR.func("A", ["x"], ["a"])
+        W1 = IR.normalize_node(dict(name="W", kind="func", inputs=["y"], outputs=["w"], wait_for=["gs"]))
+        W2 = IR.normalize_node(dict(name="V", kind="func", inputs=["y"], outputs=["v"], wait_for=["gs2"]))
+        out.append((IR.prog("top", [G, A1, W1, W2]), [["x", "in.x"], ["y", "in.y"]], f"cached-gate-with-signals/{kind}"))
     # an argument with a reference cycle (a list that contains itself): cacheable like any other picklable value
     out.append((IR.prog("top", [IR.func("A", ["x", "y"], ["p"], cache=True), IR.func("D", ["p"], ["d"], cache=True)]),
                 [["x", "~cyc"], ["y", "in.y"]], "self-referential-argument"))
